@@ -3,6 +3,7 @@
 package verifsim
 
 import (
+	"strings"
 	"bytes"
 	"fmt"
 	"sort"
@@ -384,7 +385,15 @@ func (e *txEval) checkConflicts(c *Ctx) {
 			}
 		}
 		if !justified {
-			c.Violate("false-conflict", "arrival="+e.arrivalClass(h), "%s was reported unsafe at t=%v although no transaction sharing an outpoint with it had reached the node; states: %s", e.label(h.spec), *firstUnsafe, e.stateList(h))
+			var sb strings.Builder
+			for _, o := range specs {
+				fmt.Fprintf(&sb, " %s spends", e.label(o))
+				for _, op := range o.spends {
+					fmt.Fprintf(&sb, " %s:%d", shortHash(op.Hash), op.Index)
+				}
+				fmt.Fprintf(&sb, " (body at %v);", hs[o.id].firstBodyAt)
+			}
+			c.Violate("false-conflict", "arrival="+e.arrivalClass(h), "%s was reported unsafe at t=%v although no transaction sharing an outpoint with it had reached the node; states: %s; transactions:%s", e.label(h.spec), *firstUnsafe, e.stateList(h), sb.String())
 		}
 	}
 }
